@@ -47,8 +47,9 @@ def main(argv):
             mod.correspond(ctx)
         if hasattr(mod, "search"):
             mod.search(ctx)
-        if tier == "thorough" and hasattr(mod, "LEANCHECK"):
-            common.leancheck(ctx, mod.LEANCHECK)
+        if tier == "thorough":
+            # independent re-check of the compiled proofs of this property (and of the helper modules it names)
+            common.leancheck(ctx, list(getattr(mod, "LEANCHECK", [])) + ["Props." + pid])
         ctx.cov["rule"] = getattr(mod, "RULE", "")
         ctx.notes = list(getattr(mod, "ASSUMPTIONS", []))
         return common.finish(ctx)
